@@ -1382,7 +1382,9 @@ class Vector():
 		if dtype is not None:
 			for value in appended:
 				dtype = dtype.promote_with(value)
-		return Vector(self._underlying + appended, dtype=dtype)
+		# list(): with nothing appended, tuple + () is the very same tuple object and the
+		# result would share (write-refusing) storage with self
+		return Vector(list(self._underlying + appended), dtype=dtype)
 
 
 	def __rshift__(self, other):
@@ -1415,7 +1417,7 @@ class Vector():
 		"""
 		# Convert other to Vector and concatenate with self
 		if isinstance(other, Iterable) and not isinstance(other, (str, bytes, bytearray)):
-			return Vector(tuple(other) + self._underlying,
+			return Vector(list(tuple(other) + self._underlying),  # list(): never share self's tuple
 				None,  # other doesn't have a default element
 				None,
 				False)
